@@ -88,7 +88,7 @@ def c19(tier, seed):
         for y0 in starts:
             for ln in spans:
                 y1 = min(2099, y0 + ln - 1)
-                for month in ((0,) if tier == "quick" else (0, 1)):
+                for month in ((0, 1) if tier == "quick" else (0, 1, 2)):
                     out, ch = impl.classify(lambda: FutureChain(_cls(cls), "%d-01" % y0, "%d-12" % y1, month=month))
                     case = {"kind": "chain", "cls": cls, "start": y0, "end": y1, "month": month}
                     nch += 1
